@@ -335,7 +335,7 @@ class DFXPWriter(BaseWriter):
         langs = caption_set.get_languages()
         if force in langs:
             langs = [force]
-            dfxp.find('tt')['xml:lang'] = force
+            dfxp.find('tt')['xml:lang'] = _escape_attr(force)
         else:
             dfxp.find('tt')['xml:lang'] = DFXP_DEFAULT_LANGUAGE_CODE
 
@@ -367,7 +367,7 @@ class DFXPWriter(BaseWriter):
 
         for lang in langs:
             div = dfxp.new_tag('div')
-            div['xml:lang'] = lang
+            div['xml:lang'] = _escape_attr(lang)
             self._assign_positioning_data(div, lang, caption_set)
 
             for caption in caption_set.get_captions(lang):
@@ -1163,7 +1163,16 @@ class RegionCreator:
                 region.extract()
 
 
+def _escape_attr(value):
+    """Escape a string for use as the value of a double-quoted XML attribute.
+    The document is serialised with formatter=None, so nothing else does."""
+    if isinstance(value, str):
+        return escape(value, {'"': '&quot;'})
+    return value
+
+
 def _recreate_style(content, dfxp):
+    content = {k: _escape_attr(v) for k, v in content.items()}
     dfxp_style = {}
 
     if 'class' in content:
